@@ -98,6 +98,11 @@ def detect(name, checks):
     if rc != 0:
         print("patch does not apply:", out); return 2
     results = {}
+    # the checks rewrite /verif/evidence/<id>.json on every run: keep the records of the unchanged
+    # tree aside, so that a run against a seeded change is never left behind (or committed) as evidence
+    evid, keep = os.path.join(ROOT, "evidence"), os.path.join(ROOT, "work", "evidence.keep")
+    shutil.rmtree(keep, ignore_errors=True)
+    shutil.copytree(evid, keep)
     try:
         for c in checks:
             t0 = time.time()
@@ -107,6 +112,8 @@ def detect(name, checks):
             print(name, c, "exit", rc, lines[:3])
     finally:
         sh("git checkout -- .", cwd="/repo")
+        shutil.rmtree(evid, ignore_errors=True)
+        shutil.move(keep, evid)
     meta.setdefault("detection", {}).update(results)
     meta["detected_by"] = sorted(c for c, r in meta["detection"].items() if r["exit"] == 1)
     json.dump(meta, open(os.path.join(t, "meta.json"), "w"), indent=1)
